@@ -29,8 +29,14 @@ def _verify_load(args):
         out["functions"] = fns
     except Exception as e:
         import traceback
+        from .values import Unsupported
 
-        out["error"] = "%s: %s\n%s" % (type(e).__name__, e, traceback.format_exc()[-1500:])
+        if isinstance(e, Unsupported):
+            # code outside the modelled subset / contracts that no longer bind: undecided, never a violation
+            out["records"].append({"name": "%s/supported" % which, "status": "unknown", "backend": "engine", "time_s": 0, "clause": "cover", "function": which,
+                                   "reason": "unsupported construct: %s" % e})
+        else:
+            out["error"] = "%s: %s\n%s" % (type(e).__name__, e, traceback.format_exc()[-1500:])
     out["wall_s"] = round(time.time() - t0, 2)
     return out
 
